@@ -734,6 +734,26 @@ func (v *FV) doCall(fr *Frame, st *State, cc *ssa.CallCommon, recvTV TV, args []
 			v.wr(st.snap, "RESNIL", fvKey, fmt.Sprintf("(= %s 0)", res[n-1].T))
 		}
 	}
+	if (fr.isTop || v.topFrame != nil) && v.con != nil && len(v.con.GhostAfter) > 0 && v.quiet == 0 {
+		name := v.calleeName(cc, cc.StaticCallee())
+		for _, g := range v.con.GhostAfter {
+			if !strings.Contains(name, g.Name) {
+				continue
+			}
+			frm := fr
+			if !fr.isTop {
+				frm = v.topFrame // a call made by an inlined callee / deferred closure: names are those of the top function
+			}
+			env := v.exprEnv(frm, st, "ghost_after "+g.Name)
+			if len(res) > 0 {
+				env.vars["result"] = res[0]
+			}
+			if err := v.ghostAssign(env, st, g.Text); err != nil {
+				v.specError(g, err)
+			}
+			v.ghostAfterHits[g.Name]++
+		}
+	}
 	v.sharedAfterStep(fr, st, before, pos, v.calleeName(cc, nil))
 	return res
 }
@@ -1030,6 +1050,14 @@ func (v *FV) applyContract(fr *Frame, st *State, con *Contract, callee *ssa.Func
 				continue
 			}
 		}
+		if mentionsCallTrace(c.Text) {
+			// calls(f) / calledat(f) / lasterrnil(f) / lastarg(f) / lastnonnil(f) speak about the calls the
+			// function under verification makes ITSELF; the counters are not changed by what a callee does,
+			// so a callee's clause about its own calls says nothing here (assuming it would equate a counter
+			// with itself plus one and silently kill the path). Not assumed at call sites.
+			v.note("clause '%s' of %s speaks about the callee's own call trace: not assumed at the call site %s", c.Name, short, pos)
+			continue
+		}
 		t, err := env2.EvalBool(c.Text)
 		if err != nil {
 			v.specError(c, err)
@@ -1134,7 +1162,10 @@ func (v *FV) runDeferredIn(fr *Frame, st *State, d *deferRec, pos string) {
 		_ = b
 		return
 	}
+	// recover() stops a panic only when the deferred function itself calls it (not a function it calls)
+	v.deferDepths = append(v.deferDepths, fr.depth+1)
 	v.doCall(fr, st, cc, d.fnVal, d.args, pos)
+	v.deferDepths = v.deferDepths[:len(v.deferDepths)-1]
 }
 
 // ---------- builtins
@@ -1198,7 +1229,12 @@ func (v *FV) builtin(fr *Frame, st *State, in ssa.Value, cc *ssa.CallCommon, b *
 	case "print", "println":
 		fr.vals[in] = TV{T: "0", Ty: in.Type(), Sort: "Int"}
 	case "recover":
-		if st.panicking {
+		if st.panicking && (len(v.deferDepths) == 0 || fr.depth != v.deferDepths[len(v.deferDepths)-1]) {
+			// called by a helper of the deferred function (or outside any deferred call): returns nil, the
+			// panic goes on
+			v.note("recover() at %s is not called directly by a deferred function: it does not stop the panic", pos)
+			fr.vals[in] = TV{T: "0", Ty: in.Type(), Sort: "Int"}
+		} else if st.panicking {
 			tv := v.freshVal(fr, in, st)
 			v.assume(st.reach, fmt.Sprintf("(not (= %s 0))", tv.T))
 			st.panicking = false
@@ -1748,6 +1784,17 @@ func (v *FV) sharedAfterStep(fr *Frame, st *State, before *Snapshot, pos, what s
 			v.oblige("guar", "", pos, "the step "+shortKey(what)+" respects what other threads rely on: "+sd.Rely, st.reach, t)
 		}
 	}
+}
+
+func mentionsCallTrace(text string) bool {
+	// reading the caller's counter (calls(x) without old) is meaningful at a call site: a ghost field can
+	// record how many calls the caller had made so far; a claim that a counter CHANGED is not
+	for _, w := range []string{"old(calls(", "calledat(", "lasterrnil(", "lastarg(", "lastnonnil("} {
+		if strings.Contains(text, w) {
+			return true
+		}
+	}
+	return false
 }
 
 func isErrorType(t types.Type) bool {
